@@ -11,15 +11,28 @@ def sparse(v):
 
 def run(item):
     from PEPit import PEP, Point
+    import io, contextlib
     pep = PEP()
-    x1, x2 = Point(), Point()
+    x1, x2 = pep.set_initial_point(), pep.set_initial_point()
     base = [x1, x2, x1 - x2 / 2, 2 * x2 + x1]
-    part = pep.declare_block_partition(d=item["d"])
+    pep.add_constraint(x1 ** 2 <= 1)
+    pep.add_constraint(x2 ** 2 <= 1)
+    pep.set_performance_metric((x1 - x2) ** 2)
+    if item.get("ctor", 1) == 2:
+        from PEPit.block_partition import BlockPartition
+        part = BlockPartition(d=item["d"])
+    else:
+        part = pep.declare_block_partition(d=item["d"])
+
+    def solve():
+        """the orthogonality relations are imposed AT SOLVE TIME: a real solve of a small bounded model"""
+        with contextlib.redirect_stdout(io.StringIO()):
+            return pep.solve(verbose=0, solver="CLARABEL")
     ret, out, oid = [], [], []
     ids = {}
     for c in item["h"]:
         if c["p"] == 0:         # an intermediate solve-time generation of the partition constraints
-            part.add_partition_constraints()
+            solve()
             out.append("ok"); ret.append([]); oid.append(0)
             continue
         try:
@@ -31,7 +44,7 @@ def run(item):
             out.append("raises:" + type(e).__name__)
             ret.append([])
             oid.append(0)
-    part.add_partition_constraints()
+    val = solve()
     if Point.counter > MAXP:
         raise RuntimeError("leaf budget")
     blocks = []
@@ -43,8 +56,11 @@ def run(item):
         blocks.append([sparse(proj.pvec(b, MAXP)) for b in bl] if bl is not None else [])
     cons = []
     idx = proj.pair_index(MAXP)
-    for c in part.list_of_constraints:
-        F, G, cc = proj.evec(c.expression, MAXP, 0)
+    # what REACHED the solver for the partition: the sent constraints that are the partition's own
+    sent_part = [c for c in pep._list_of_constraints_sent_to_wrapper if any(c is pc for pc in part.list_of_constraints)]
+    from PEPit.expression import Expression
+    for c in sent_part:
+        F, G, cc = proj.evec(c.expression, MAXP, Expression.counter)
         cons.append(dict(sense=proj.sense(c), e=dict(G=sparse(G), c=[cc.numerator, cc.denominator])))
-    return dict(d=item["d"], h=item["h"], out=out, ret=ret, oid=oid, blocks=blocks, cons=cons,
+    return dict(d=item["d"], ctor=item.get("ctor", 1), solved=0 if val is None else 1, h=item["h"], out=out, ret=ret, oid=oid, blocks=blocks, cons=cons,
                 base=[sparse(proj.pvec(p, MAXP)) for p in base], np=Point.counter)
